@@ -132,7 +132,9 @@ fn decode_loop(
                 total_bytes_read += bytes_read;
                 // The output is already reserved to the size of the input. We slowly resize. Here,
                 // we're expecting that 10% of bytes will double in size when converting to UTF-8.
-                output.reserve(input.len() / 10);
+                // Always make room for at least one more character (4 bytes in UTF-8): with less,
+                // the decoder cannot make progress and would return `OutputFull` forever.
+                output.reserve((input.len() / 10).max(4));
             }
             (DecoderResult::Malformed(malformed_len, bytes_after_malformed), bytes_read) => {
                 total_bytes_read += bytes_read;
